@@ -83,7 +83,10 @@ def run(ctx):
     rs = ctx.rule('R-SUSPEND', 'lock awaiters: await_suspend == AwaitLock outcome', minimum=4)
     rsh = ctx.rule('R-SHAPE', 'GetHead neither loses, duplicates nor cycles the waiters it takes over (shape analysis '
                    'over list segments, all lengths)', minimum=4)
+    rcf = ctx.rule('R-CASFRESH', 'every retry of a compare-exchange re-tests the refreshed expected value against the '
+                   'sentinels the first attempt tested', minimum=4)
     for cfg, fb in sorted(fbs.items()):
+        lib_order.check_cas_fresh(ctx, fb, rcf, lambda f: 'MutexImpl' in f.qn)
         lib_shape.check(ctx, fb, rsh, lambda qn: 'MutexImpl' in qn, 4)
         lib_order.check(ctx, fb, cfg, [SENDER], rw, ro, rc)
         fns = [f for f in fb.fn.values() if f.clsq == M and f.cfg is not None]
